@@ -106,6 +106,7 @@ type FnVC struct {
 	houdiniByOrd map[int][]Clause
 	inferOnly bool
 	axiomDefs []string
+	implPreds map[string]types.Type
 	defIndex  map[string]int
 	defIndexed int
 	idxMu     sync.Mutex
@@ -464,7 +465,7 @@ func mapKeyNames(m *types.Map) (dom, val, ln string, ks, vs string) {
 		vs = "Int" // struct-valued maps: value is an object ref
 	}
 	tag := sortTag(ks) + "!" + sortTag(vs)
-	return "MD!" + tag, "MV!" + tag, "ML", ks, vs
+	return "MD!" + tag, "MV!" + tag, "ML!" + tag, ks, vs
 }
 
 func (vc *FnVC) mapKeys(m *types.Map) (dom, val, ln *KeyInfo) {
